@@ -93,15 +93,32 @@ def run(chk):
                   'the two scatter branches differ beyond the weight copy', node=b)
     # sort branches
     for n, S in enumerate(sortl):
-        txt = [unparse(b) for b in S.body]
+        txt = [unparse(b) for b in walk_no_nested(S) if isinstance(b, ast.stmt) and b is not S]
         i = S.target.id
         pok = f'part = psort[starts[{i}]:starts[{i} + 1]]' in txt and 'iord = part[:, coord].argsort()' in txt and 'part[:] = part[iord]' in txt
+        # is this loop executed when weights are given?  (its position relative to `if weights is not None`)
+        weighted = True
+        p_ = getattr(S, '_parent', None)
+        ch = S
+        while p_ is not None and p_ is not fn:
+            if isinstance(p_, ast.If) and unparse(p_.test) in ('weights is not None', 'weights is None'):
+                in_body = ch in p_.body
+                weighted = in_body if unparse(p_.test) == 'weights is not None' else not in_body
+            ch, p_ = p_, getattr(p_, '_parent', None)
+        wlines = [b for b in walk_no_nested(S) if isinstance(b, ast.stmt) and b is not S and 'wsort' in unparse(b) and not isinstance(b, ast.If)]
         wok = True
-        if any('wsort' in t for t in txt):
+        if weighted:
             wok = f'weightspart = wsort[starts[{i}]:starts[{i} + 1]]' in txt and 'weightspart[:] = weightspart[iord]' in txt
+            # the weight permutation may sit under `if weights is not None:` inside the loop, nothing else
+            for b in wlines:
+                g = getattr(b, '_parent', None)
+                if g is not S and not (isinstance(g, ast.If) and unparse(g.test) == 'weights is not None' and b in g.body and getattr(g, '_parent', None) is S):
+                    wok = False
+        elif wlines:
+            wok = False
         rng = unparse(S.iter).endswith('prange(npartition)')
         chk.check(pok and wok and rng, 'C17-R4', TSC, Q, f'sort branch {n + 1}: stripe and its weights permuted by the same order', '',
-                  f'sort branch: positions ok={pok}, weights ok={wok}, over all stripes={rng}', node=S, nontrivial=False)
+                  f'sort branch (runs with weights={weighted}): positions ok={pok}, weights ok={wok}, over all stripes={rng}', node=S, nontrivial=False)
     from ..core.srcmodel import early_exits
     ex = [e for lp in loops for e in early_exits(lp)] + [e for lp in loops for il in [_inner_loop(lp)] if il is not None for e in early_exits(il)]
     chk.check(not ex, 'C17-R2', TSC, Q, 'no particle is skipped: no continue/break/return inside the passes', '',
